@@ -25,13 +25,16 @@ MANIFEST = dict(
          'unrestricted statement), no duplicate (name, complete), nothing matching is lost, sortedness, and '
          '"the key tuple found in the source orders exactly as documented" stated over the translator-extracted '
          'component list. Tie: translator + correspondence (unit level exhaustive on small strings, synthetic-name '
-         'stream, end-to-end stream on the candidates jedi collected). Attribute completeness is checked by '
-         'executing generated programs (a test, labelled as such).',
+         'stream, end-to-end stream on the candidates jedi collected). Attribute completeness: theorem '
+         'attrs_complete_partial over the PyCore fragment (every attribute the run can read from an instance/class is '
+         'among complNames, the transcription of the filters complete_trailer uses; tie: jedi completions after `obj.` = '
+         'complNames on generated PyCore programs); beyond the fragment (multiple inheritance) it is decided by '
+         'executing generated hierarchies.',
     note='Modelled not verified: CPython str.lower (parameter), candidate collection in '
          'Completion._complete_python, dict-key/file-name completions that are prepended.',
     technique='Lean 4 proof over hand-written model + translator-generated constants + differential correspondence',
     design='5.C04')
-LEAN_TARGETS = ['JediModel.Props.C04', 'JediModel.Drivers.C04']
+LEAN_TARGETS = ['JediModel.Props.C04', 'JediModel.Drivers.C04', 'JediModel.Drivers.C02']
 
 
 # ----------------------------------------------------------------- synthetic names
@@ -485,6 +488,89 @@ def stream_hierarchy(ctx):
                          expected=exp, observed={'missing': missing}, how=how)
 
 
+def analyse_pycore(seed):
+    """PyCore programs (see C02): for every probe whose run-time value is an instance, complete after
+    `_pN.`; returns what jedi offers, what the live object has (source-defined), and the program for
+    the model (Model.PyCore.complNames, theorem attrs_complete_partial)"""
+    import random
+    import jedi
+    from gen import pycore as P
+    from props import c02
+    rng = random.Random(seed)
+    out = []
+    for _ in range(3):
+        gen = P.Gen(rng, rng.choice([8, 12]), 2)
+        prog = gen.program()
+        # probe every variable that holds an instance
+        for x, guess in list(gen.vars.items()):
+            if isinstance(guess, tuple) and guess[0] == 'inst':
+                prog.append(['probe', ['name', x]])
+        text, probes, _dl = P.source(prog)
+        g = {'__name__': '__pycore__'}
+        body = text.replace('import _verif_unknown_module\n_OPQ_T = _verif_unknown_module.t\n_OPQ_F = _verif_unknown_module.f\n',
+                            '_OPQ_T = True\n_OPQ_F = False\n\n', 1)
+        try:
+            exec(compile(body, '<pc>', 'exec'), g)
+        except Exception:
+            continue
+        enc, nm = c02.encode(prog)
+        rec = {'prog': enc, 'names': {v: k for k, v in nm.ids.items()}, 'src': text, 'probes': []}
+        for (n, line, col) in probes:
+            obj = g.get('_p%d' % n)
+            if obj is None or isinstance(obj, (int, str, tuple, type)) or callable(obj):
+                continue
+            if type(obj).__module__ != '__pycore__':
+                continue
+            expected = set(vars(obj))
+            for k in type(obj).__mro__:
+                if k is not object:
+                    expected |= {x for x in vars(k) if not (x.startswith('__') and x.endswith('__'))}
+            src = text + '_p%d.' % n
+            ln = src.count('\n') + 1
+            cl = len(src.split('\n')[-1])
+            pr = {'n': n, 'expected': sorted(expected), 'source': src, 'line': ln, 'column': cl}
+            try:
+                comps = jedi.Script(src).complete(ln, cl)
+                pr['offered'] = sorted({c.name for c in comps if not (c.name.startswith('__') and c.name.endswith('__'))})
+            except Exception as e:
+                pr['raised'] = '%s@%s' % common.exc_site(e)
+            rec['probes'].append(pr)
+        if rec['probes']:
+            out.append(rec)
+    return out
+
+
+def stream_pycore(ctx):
+    seeds = ['%s-pycore-%d' % (ctx.seed, i) for i in range(ctx.size(20, 500))]
+    recs = [r for rs in common.parallel_map('props.c04', 'analyse_pycore', seeds) for r in rs]
+    answers = common.run_driver_parallel('C02', [{'op': 'run', 'prog': r['prog'], 'fuel': 60} for r in recs]) \
+        if ctx.model_ok else [None] * len(recs)
+    how = 'jedi.Script(source).complete(line, column) vs the attributes of the executed object'
+    for rec, ans in zip(recs, answers):
+        names = {int(k): v for k, v in rec['names'].items()}
+        for pr in rec['probes']:
+            if 'raised' in pr:
+                ctx.count('raised', (pr['source'],), nontrivial=False, bucket=pr['raised'])
+                continue
+            case = {'source': pr['source'], 'line': pr['line'], 'column': pr['column']}
+            ctx.count('attrs', (pr['source'],), nontrivial=bool(pr['expected']),
+                      bucket='pycore attrs=%d' % min(len(pr['expected']), 6))
+            missing = [x for x in pr['expected'] if x not in pr['offered']]
+            if missing:
+                ctx.fail('attrs', 'run-time attribute defined in source is not offered', case,
+                         expected=pr['expected'], observed={'missing': missing}, how=how)
+            if ans is None:
+                continue
+            m = ans['probes'][pr['n']]
+            if m['compl'] is None:
+                continue
+            model = sorted({names[i][1:] if names[i].startswith('.') else names[i] for i in m['compl']})
+            ctx.count('complnames', (pr['source'],), nontrivial=bool(model))
+            if model != pr['offered']:
+                ctx.tie_broken('correspondence:complnames',
+                               short({'source': pr['source'], 'jedi': pr['offered'], 'model': model}, 1200))
+
+
 def stream_e2e(ctx, reqs):
     import jedi
     from jedi import settings
@@ -672,6 +758,7 @@ def run(ctx):
     cases += stream_e2e(ctx, reqs)
     stream_known(ctx)
     stream_hierarchy(ctx)
+    stream_pycore(ctx)
     if ctx.model_ok:
         answers = common.run_driver_parallel('C04', reqs)
         compare(ctx, cases, answers)
